@@ -78,7 +78,7 @@ var Metas = map[string]*Meta{
 			"an iterator that keeps reading (without calling back) after the consumer declined is not flagged: the property does not state it",
 		},
 		Components: map[string]any{"real": append([]string{"biostuff newick traversal, trie.ForEach, sequtil.CanonicalSubsequences"}, realCommon...), "simulated_environment": []string{"the consumer (stop position, style)", "io.Reader with delivery plan and fault", "storage configurations on the real file system", "map iteration order via the guarded hook"}, "stubbed": []string{}},
-		Runs:       map[string]int{"quick": 400000, "thorough": 8000000},
+		Runs:       map[string]int{"quick": 300000, "thorough": 8000000},
 		Run:        RunC18,
 		Setup:      SetupC18,
 	},
